@@ -51,21 +51,14 @@ theorem spec_processMessage_sp (S : Spool) (hS : SpoolShape S) (env : PEnv) (orc
       exact ⟨by rw [lookup_of_dirs ef.dirs]; exact a1, by rw [ef.nextFid]; exact a2, f,
         by unfold World.file; rw [ef.files]; exact a3, a4, a5⟩
     have all1 : SpoolAll S w w1 := ⟨inv1.toX _, two0 w1 (dir_of_dirs hdirs1)⟩
-    -- for a rule tree that asks nothing the result is the pure evaluation
-    have hpure : asksFree expr = true →
-        ev = eval (evalEnv env orc (S.sp ++ [47] ++ n)) (parseMessage input) expr 0 (parseMessage input) { ml := [], flags := fl } := by
-      intro hfree
-      rw [hev]
-      have := evalT_asksFree (evalEnv env orc (S.sp ++ [47] ++ n)) orc.timeFormat (parseMessage input) expr hfree 0
-        (parseMessage input) { ml := [], flags := fl }
-      show ((evalT (noSys (evalEnv env orc (S.sp ++ [47] ++ n))) orc.timeFormat (parseMessage input) expr 0 (parseMessage input)
-        { ml := [], flags := fl }).run as).1 = _
-      rw [this]
-      rfl
+    -- the verdict on the value of evaluation is the verdict for the answers the world gave
+    have hva : verdictOfEv env orc (parseMessage input) ((getAttachments (parseMessage input)).getD []) (S.sp ++ [47] ++ n) ev =
+        stdinVerdictA env orc expr input (S.sp ++ [47] ++ n) fl as := by
+      rw [hev]; rfl
     have hdfd : S.d < fd := Nat.lt_of_lt_of_le hdlt hfdge
     have closeOnly : ∀ (res : MainSt × Maildir), res.2 = spoolMd S →
-        (res.1.error = false → st.error = false ∧ (asksFree expr = true →
-          DoneV S env input (stdinVerdict env orc expr input (S.sp ++ [47] ++ n) fl) w1)) →
+        (res.1.error = false → st.error = false ∧
+          DoneV S env input (stdinVerdictA env orc expr input (S.sp ++ [47] ++ n) fl as) w1) →
         wp (fun _ => True)
           ((match (some fd : Option Handle) with
             | some h => Prog.call (Call.close h) fun _ => Prog.ret ()
@@ -75,30 +68,29 @@ theorem spec_processMessage_sp (S : Spool) (hS : SpoolShape S) (env : PEnv) (orc
       intro res h1 h2
       refine wp_free (some fd) res _ ?_
       rintro w3 (rfl | ⟨f, rc, hf, rfl⟩)
-      · exact ⟨h1, all1, fun he => ⟨(h2 he).1, fun hfree => ⟨fl, hflags, (h2 he).2 hfree⟩⟩⟩
+      · exact ⟨h1, all1, fun he => ⟨(h2 he).1, fl, as, hflags, (h2 he).2⟩⟩
       · cases hf
-        exact ⟨h1, all1.close _ rc hdfd, fun he => ⟨(h2 he).1, fun hfree => ⟨fl, hflags, ((h2 he).2 hfree).step _ _ trivial⟩⟩⟩
+        exact ⟨h1, all1.close _ rc hdfd, fun he => ⟨(h2 he).1, fl, as, hflags, (h2 he).2.step _ _ trivial⟩⟩
     obtain ⟨t, est⟩ := ev
     cases t with
     | error => exact closeOnly _ rfl (by intro h; cases h)
     | «nomatch» =>
-      refine closeOnly _ rfl (fun he => ⟨he, fun hfree => ?_⟩)
-      simp only [stdinVerdict, verdictOf, ← hpure hfree]
+      refine closeOnly _ rfl (fun he => ⟨he, ?_⟩)
+      rw [← hva]
       trivial
     | «match» =>
       dsimp only
       split
       · exact closeOnly _ rfl (by intro h; cases h)
       · rename_i ml msgs hint
-        have hv : asksFree expr = true → stdinVerdict env orc expr input (S.sp ++ [47] ++ n) fl = .actions ml (msgs 0) := by
-          intro hfree
-          simp only [stdinVerdict, verdictOf, ← hpure hfree]
-          simp only [evalEnv]
+        have hv : stdinVerdictA env orc expr input (S.sp ++ [47] ++ n) fl as = .actions ml (msgs 0) := by
+          rw [← hva]
+          simp only [verdictOfEv, evalEnv]
           rw [hint]
         split
         · rename_i hdry
-          refine closeOnly _ rfl (fun he => ⟨he, fun hfree => ?_⟩)
-          rw [hv hfree]
+          refine closeOnly _ rfl (fun he => ⟨he, ?_⟩)
+          rw [hv]
           intro h
           rw [hdry] at h
           cases h
@@ -135,8 +127,8 @@ theorem spec_processMessage_sp (S : Spool) (hS : SpoolShape S) (env : PEnv) (orc
           refine ⟨rfl, all3, ?_⟩
           intro he
           have he' : st.error = false ∧ e = false := by simpa using he
-          refine ⟨he'.1, fun hfree => ⟨fl, hflags, ?_⟩⟩
-          rw [hv hfree]
+          refine ⟨he'.1, fl, as, hflags, ?_⟩
+          rw [hv]
           intro _ hT hmv hnsd
           obtain ⟨hexok, hch⟩ := hok2 he'.2
           obtain ⟨f0, hg⟩ := hexok.trk hT
